@@ -81,6 +81,58 @@ def check_cell(ctx, cell, rng):
     return p
 
 
+def reencrypt_cases(ctx, rng):
+    """a JSON JWE that was parsed (decrypted) is encrypted again from the returned object, e.g. by a gateway: the result decrypts to the same
+    plaintext although the parsed headers still hold the previous epk / iv / tag / p2s - in the protected header when the producer put them there"""
+    j = J.load()
+    J.register_drafts()
+    pt = b"c04 re-encrypt \x00 plaintext"
+    algs = ["A128KW", "RSA-OAEP", "dir", "ECDH-ES", "ECDH-ES+A128KW", "ECDH-ES+A256KW", "A128GCMKW", "A256GCMKW", "PBES2-HS256+A128KW"]   # (ECDH-1PU: the parsed object holds the public sender key, re-encrypting needs the private one)
+    for ai, alg in enumerate(algs):
+        for form in ("flattened", "general"):
+            for params_in in ("protected", "recipient"):
+                for source in ("reference", "joserfc"):
+                    ctx.ev()
+                    enc = "A128CBC-HS256" if g.is_1pu(alg) else g.RFC_ENCS[(ai + len(form)) % len(g.RFC_ENCS)]
+                    curve = g.ECDH_CURVES[(ai + len(params_in)) % len(g.ECDH_CURVES)]
+                    rk, sk = g.keys_for(alg, enc, curve)
+                    allow = [alg, enc]
+                    priv = j.key(rk)
+                    spub = j.key(gen.public_jwk(sk)) if sk else None
+                    spriv = j.key(sk) if sk else None
+                    desc = {"alg": alg, "enc": enc, "form": form, "generated_params_in": params_in, "first_token_by": source}
+                    if source == "reference":
+                        tok = g.make(form, enc, [(alg, rk, sk)], pt, params_in=params_in, alg_in="protected" if params_in == "protected" else "recipient").token
+                    else:
+                        if params_in == "protected":
+                            continue   # joserfc itself puts generated parameters into the per-recipient header
+                        cls = j.jwe.FlattenedJSONEncryption if form == "flattened" else j.jwe.GeneralJSONEncryption
+                        o0 = cls({"enc": enc}, pt)
+                        o0.add_recipient({"alg": alg}, j.key(gen.public_jwk(rk)))
+                        t0 = call(j.jwe.encrypt_json, o0, None, algorithms=allow, sender_key=spriv)
+                        if not t0.ok:
+                            continue
+                        tok = t0.value
+                    first = call(j.jwe.decrypt_json, copy.deepcopy(tok), priv, algorithms=allow, sender_key=spub)
+                    if not first.ok:
+                        ctx.count("reencrypt_first_decrypt_failed")   # C08's subject
+                        continue
+                    again = call(j.jwe.encrypt_json, first.value, priv, algorithms=allow, sender_key=spriv)
+                    ctx.count("reencryptions")
+                    ctx.nontrivial(("reenc", alg, form, params_in, source))
+                    ctx.cell("re-encrypt", alg, form, params_in)
+                    case = {"reencrypt": desc, "first_token": tok}
+                    if not again.ok:
+                        ctx.violation(f"reencrypt-fails:{again.etype}", f"encrypt_json of the object returned by decrypt_json failed for {desc}: {again.exc!r}", case)
+                        continue
+                    back = call(j.jwe.decrypt_json, copy.deepcopy(again.value), priv, algorithms=allow, sender_key=spub)
+                    if not back.ok:
+                        ctx.violation(f"reencrypted-token-rejected:{back.etype}", f"the token made by encrypting a parsed object again does not decrypt for {desc}: {back.exc!r}",
+                                      {**case, "second_token": again.value})
+                    elif back.value.plaintext != pt:
+                        ctx.violation("reencrypted-plaintext-differs", f"re-encrypted token yields another plaintext for {desc}", {**case, "second_token": again.value})
+
+
 def forbidden_cells(ctx, rng):
     """combinations the specifications forbid must be refused at encryption time"""
     j = J.load()
@@ -171,6 +223,8 @@ def run_shard(ctx):
     rng = ctx.rng
     if ctx.shard == 0:
         forbidden_cells(ctx, rng)
+    if ctx.shard == 1:
+        reencrypt_cases(ctx, rng)
     fc = forced(ctx.tier)
     for idx, kw in enumerate(fc):
         if idx % ctx.nshards != ctx.shard:
